@@ -11,6 +11,7 @@ class Shadow:
         self.info = {}          # oid -> dict
         self.tag = 0
         self.setup_done = role == 'client'
+        self.chan_complete_sids = set()
 
     def fresh(self, n=1):
         out = []
@@ -47,9 +48,40 @@ def choose_group(rng, H, sh, profile, pos):
     for _ in range(rng.choice([1, 1, 1, 2, 2, 3])):
         s = choose_one(rng, H, sh, profile)
         if s is not None:
-            group.append(s)
             note(sh, H, s)
+            group.extend(fragmented(rng, sh, s))
     return group
+
+
+FRAGMENTABLE = ('REQUEST_RESPONSE', 'REQUEST_FNF', 'REQUEST_STREAM', 'REQUEST_CHANNEL', 'PAYLOAD')
+
+
+def fragmented(rng, sh, s):
+    """a peer with fragmentation enabled: a payload-carrying frame arrives as 2..3 legal fragments (first keeps the type and the request-n,
+    FOLLOWS on all but the last, COMPLETE only on the last, continuation fragments are PAYLOAD frames), delivered back to back"""
+    if s['op'] != 'recv' or rng.random() >= 0.3:
+        return [s]
+    f = s['frame']
+    if f['ty'] not in FRAGMENTABLE or f.get('follows') or f['sid'] == 0:
+        return [s]
+    data = list(f.get('data') or [])
+    while len(data) < 2:
+        data = data + sh.fresh(1)
+    k = 3 if len(data) >= 3 and rng.random() < 0.5 else 2
+    cuts = [data[:1], data[1:]] if k == 2 else [data[:1], data[1:2], data[2:]]
+    out = []
+    for j, part in enumerate(cuts):
+        last = j == len(cuts) - 1
+        if j == 0:
+            g = dict(f, data=part, follows=True, complete=False)
+            if f['ty'] == 'PAYLOAD':
+                g['next'] = True
+        else:
+            g = {'ty': 'PAYLOAD', 'sid': f['sid'], 'data': part, 'follows': not last, 'complete': bool(f.get('complete')) and last, 'next': True}
+        out.append({'op': 'recv', 'frame': g, 'beh': s.get('beh', 'k')})
+    if f['ty'] == 'REQUEST_CHANNEL' and f.get('complete'):
+        sh.chan_complete_sids.add(f['sid'])
+    return out
 
 
 def _sync(H, sh):
@@ -67,6 +99,8 @@ def _sync(H, sh):
                 for spec in H.recv_specs.values():
                     if spec['ty'] == 'REQUEST_CHANNEL' and spec['sid'] == o['sid'] and spec.get('complete'):
                         i['peer_term'] = True
+                if o['sid'] in sh.chan_complete_sids:
+                    i['peer_term'] = True
     for oid, i in sh.info.items():
         o = H.objs[oid]
         if o['kind'] in ('stReq', 'chReq'):
